@@ -376,7 +376,12 @@ fn gen_case(rng: &mut Rng, tier: Tier, prop: Prop) -> GradCase {
     } else {
         map_mode
     };
-    let diff = gen_diff(rng, target);
+    let mut diff = gen_diff(rng, target);
+    // C15 is pure protocol (the model is whatever plain next() yields), so the calculator's own
+    // Difficulty may also carry passed_objects; C02/C03 compare against passed_objects(i) and leave it unset
+    if prop == Prop::C15 && rng.chance(0.15) {
+        diff.passed = Some(rng.below(map.objects.len() as u64 + 3) as u32);
+    }
     let api_enum = rng.chance(0.4);
     let drop_map_early = rng.chance(0.25);
     let n = map.objects.len() as u64;
